@@ -3,7 +3,6 @@ package runner
 import (
 	"context"
 	"fmt"
-	"strings"
 
 	"github.com/prometheus/client_golang/prometheus"
 	dto "github.com/prometheus/client_model/go"
@@ -17,8 +16,11 @@ import (
 	"verifharness/oracle"
 )
 
+// pathOf tells which engine evaluates a created query. A query of the Prometheus engine
+// (handed out as it is, or wrapped) exposes its parsed statement; the engine's own queries
+// have none. (Independent of type names, which a refactoring may change.)
 func pathOf(q promql.Query) string {
-	if strings.Contains(fmt.Sprintf("%T", q), "compatibilityQuery") {
+	if q.Statement() == nil {
 		return "native"
 	}
 	return "fallback"
